@@ -1,8 +1,9 @@
-# KF-C15-1 (C15): LockedGraphMachine(GraphMachine, LockedMachine) and LockedHierarchicalGraphMachine inherit
-# GraphMachine.__getstate__/__setstate__, which do not call super(): LockedMachine's re-keying of
-# model_context_map never runs.  The unpickled machine keeps the OLD id(model) keys; an event on a model of
-# the copy finds no contexts (defaultdict -> []), so it is no longer atomic: only the individual machine
-# methods called inside take the lock, and user model_contexts are never entered.
+# Regression for the former KF-C15-1 (C15), FIXED in /repo by 74ef53e "fix: locked graph machines keep their
+# model contexts across pickling".
+# Before the fix LockedGraphMachine(GraphMachine, LockedMachine) and LockedHierarchicalGraphMachine inherited
+# GraphMachine.__getstate__/__setstate__ (which do not call super()): LockedMachine's re-keying of
+# model_context_map never ran, the unpickled machine kept the OLD id(model) keys, an event on a model of the
+# copy found no contexts and was no longer atomic.  This probe asserts the FIXED behaviour.
 import pickle
 import threading
 import time
@@ -15,22 +16,24 @@ class Model(object):
         time.sleep(0.3)
 
 
-for cls in (LockedGraphMachine, LockedHierarchicalGraphMachine):
-    m = cls(model=[Model(), Model()], states=['A', 'B'], initial='A', graph_engine='mermaid')
+for cls in (LockedMachine, LockedGraphMachine, LockedHierarchicalGraphMachine):
+    kw = dict(graph_engine='mermaid') if 'Graph' in cls.__name__ else {}
+    m = cls(model=[Model(), Model()], states=['A', 'B'], initial='A', **kw)
     m2 = pickle.loads(pickle.dumps(m))
     new_ids = {id(x) for x in m2.models}
     old_ids = {id(x) for x in m.models}
     print(cls.__name__, 'keys are the copy\'s models:', set(m2.model_context_map) == new_ids,
           '| keys are the ORIGINAL\'s models:', set(m2.model_context_map) == old_ids)
-    assert set(m2.model_context_map) == old_ids and not (set(m2.model_context_map) & new_ids)
-    assert all(m2.model_context_map.get(id(x)) is None for x in m2.models)
+    assert set(m2.model_context_map) == new_ids and not (set(m2.model_context_map) & old_ids)
+    for x in m2.models:                       # every model finds the copy's machine lock and ident manager
+        ctx = m2.model_context_map[id(x)]
+        assert len(ctx) == 2 and ctx[0] is m2.machine_context[0] and ctx[1] is m2.machine_context[1]
+        assert ctx[0] is not m.machine_context[0]
+    if 'Graph' in cls.__name__:
+        assert set(m2.model_graphs) == new_ids
 
-ok = LockedMachine(model=[Model()], states=['A', 'B'], initial='A')
-ok2 = pickle.loads(pickle.dumps(ok))
-assert set(ok2.model_context_map) == {id(x) for x in ok2.models}      # LockedMachine alone re-keys correctly
 
-
-# behavioural consequence on the flat class: two threads interleave inside ONE event of the copy
+# behavioural consequence on the flat class: events on the copy are atomic again
 def race(machine):
     """thread 1 runs go (A->B) with a slow 'before' callback; thread 2 triggers go on the same model meanwhile.
     Atomic events: the second go sees B -> C.  Not atomic: the second go also runs A -> B."""
@@ -54,4 +57,4 @@ def build():
 orig_state = race(build())
 copy_state = race(pickle.loads(pickle.dumps(build())))
 print('two concurrent go() on the original ->', orig_state, '; on the unpickled copy ->', copy_state)
-assert orig_state == 'C' and copy_state == 'B'
+assert orig_state == 'C' and copy_state == 'C'
